@@ -58,21 +58,21 @@ type served struct {
 }
 
 type simEth struct {
-	mu       sync.Mutex
-	head     uint64
-	fork     map[uint64]int // how many times block n was replaced
-	txs      map[common.Hash]*simTx
-	contract common.Address
-	parsed   abi.ABI
-	served   []served
-	faults   map[string]int // method -> number of next calls that fail
-	subs     []*simSub
-	gsKeys   []common.Address
+	mu           sync.Mutex
+	head         uint64
+	fork         map[uint64]int // how many times block n was replaced
+	txs          map[common.Hash]*simTx
+	contract     common.Address
+	parsed       abi.ABI
+	served       []served
+	faults       map[string]int // method -> number of next calls that fail
+	subs         []*simSub
+	gsKeys       []common.Address
 	afterReceipt map[common.Hash]func() // one-shot: run (under the lock) right after the receipt of that transaction was answered
-	lag      uint64 // finalized head = head - lag (never moves backwards)
-	final    uint64
-	drain    func(n int) // called under the lock before a request is recorded: n = requests recorded so far
-	errText  string      // what the next failing calls say ("" = errTransient's text)
+	lag          uint64                 // finalized head = head - lag (never moves backwards)
+	final        uint64
+	drain        func(n int) // called under the lock before a request is recorded: n = requests recorded so far
+	errText      string      // what the next failing calls say ("" = errTransient's text)
 }
 
 type simSub struct {
